@@ -346,6 +346,7 @@ func c04R9(ic *IC, r *Report) {
 		r.Errorf("R04.9: only %d generators in scope (receive and composite-literal generators expected)", len(scope))
 	}
 	nSites := 0
+	nRet := map[string]int{}
 	for _, name := range sortedKeys(ic.F) {
 		fi := ic.F[name]
 		if fi.Decl.Body == nil || fi.Obj == nil || fi.Decl.Recv != nil || !scope[fi.Obj] {
@@ -357,7 +358,7 @@ func c04R9(ic *IC, r *Report) {
 		}
 		// captured variables holding the node's own slot index, and flags defined from the parent's kind
 		ownIdx := map[types.Object]bool{}
-		assignFlag := map[types.Object]bool{}
+		assignFlag := map[types.Object]ast.Expr{}
 		ast.Inspect(fi.Decl.Body, func(n ast.Node) bool {
 			as, ok := n.(*ast.AssignStmt)
 			if !ok || len(as.Lhs) != len(as.Rhs) {
@@ -373,8 +374,10 @@ func c04R9(ic *IC, r *Report) {
 						ownIdx[info.ObjectOf(id)] = true
 					}
 				}
-				if be, ok := unparen(rhs).(*ast.BinaryExpr); ok && be.Op == token.EQL && types.ExprString(be.X) == "n.anc.kind" && types.ExprString(be.Y) == "assignStmt" {
-					assignFlag[info.ObjectOf(id)] = true
+				if strings.Contains(types.ExprString(rhs), "n.anc.kind") {
+					if t := info.TypeOf(rhs); t != nil && types.Identical(t.Underlying(), types.Typ[types.Bool]) {
+						assignFlag[info.ObjectOf(id)] = rhs
+					}
 				}
 			}
 			return true
@@ -382,18 +385,26 @@ func c04R9(ic *IC, r *Report) {
 		if len(ownIdx) == 0 {
 			continue
 		}
-		atom := func(e ast.Expr) int {
+		parentKind := "assignStmt"
+		var atom func(e ast.Expr) int
+		atom = func(e ast.Expr) int {
 			switch x := e.(type) {
 			case *ast.Ident:
-				if assignFlag[info.ObjectOf(x)] {
-					return triTrue
+				if def, ok := assignFlag[info.ObjectOf(x)]; ok {
+					return evalCond(def, atom)
 				}
 			case *ast.BinaryExpr:
-				if (x.Op == token.EQL || x.Op == token.NEQ) && types.ExprString(x.X) == "n.anc.kind" && types.ExprString(x.Y) == "assignStmt" {
-					if x.Op == token.EQL {
-						return triTrue
+				if (x.Op == token.EQL || x.Op == token.NEQ) && types.ExprString(x.X) == "n.anc.kind" {
+					if c, ok := info.Uses[identOf(x.Y)].(*types.Const); ok {
+						res := triFalse
+						if c.Name() == parentKind {
+							res = triTrue
+						}
+						if x.Op == token.NEQ {
+							res = 1 - res
+						}
+						return res
 					}
-					return triFalse
 				}
 			case *ast.CallExpr:
 				if se, ok := unparen(x.Fun).(*ast.SelectorExpr); ok && se.Sel.Name == "CanSet" && len(x.Args) == 0 {
@@ -413,10 +424,14 @@ func c04R9(ic *IC, r *Report) {
 			}
 			// values produced in this literal: x := reflect.New(T).Elem(), r from Recv/TryRecv/Select
 			produced := map[types.Object]bool{}
+			received := map[types.Object]bool{} // not addressable: straight from reflect's receive
 			for _, p := range fl.Type.Params.List {
 				for _, nm := range p.Names {
 					if types.TypeString(info.TypeOf(p.Type), nil) == "reflect.Value" {
 						produced[info.ObjectOf(nm)] = true // a helper's parameter: the value to install
+						if len(callsIn(info, fi.Decl.Body, true, "reflect.Value.Recv", "reflect.Value.TryRecv", "reflect.Select")) > 0 {
+							received[info.ObjectOf(nm)] = true
+						}
 					}
 				}
 			}
@@ -444,6 +459,9 @@ func c04R9(ic *IC, r *Report) {
 					}
 					if isFreshValue(ic, nil, rhs) || len(callsIn(info, rhs, false, "reflect.Value.Recv", "reflect.Value.TryRecv", "reflect.Select")) > 0 {
 						produced[info.ObjectOf(id)] = true
+						if !isFreshValue(ic, nil, rhs) {
+							received[info.ObjectOf(id)] = true
+						}
 					}
 				}
 				return true
@@ -454,6 +472,7 @@ func c04R9(ic *IC, r *Report) {
 			// replacements of the own slot by a produced value, directly in this literal
 			alias := map[types.Object]bool{}
 			var sites []*ast.AssignStmt
+			recvSite := map[*ast.AssignStmt]bool{}
 			ast.Inspect(fl.Body, func(m ast.Node) bool {
 				if inner, ok := m.(*ast.FuncLit); ok && inner != fl {
 					return false
@@ -491,11 +510,13 @@ func c04R9(ic *IC, r *Report) {
 						// x, data[i], y = f(): the middle result of reflect.Select
 						if len(callsIn(info, as.Rhs[0], false, "reflect.Select", "reflect.Value.Recv", "reflect.Value.TryRecv")) > 0 {
 							sites = append(sites, as)
+							recvSite[as] = true
 						}
 						continue
 					}
 					if rid, ok := unparen(rhs).(*ast.Ident); ok && produced[info.ObjectOf(rid)] {
 						sites = append(sites, as)
+						recvSite[as] = received[info.ObjectOf(rid)]
 					}
 				}
 				return true
@@ -504,48 +525,64 @@ func c04R9(ic *IC, r *Report) {
 				return true
 			}
 			g := cfg.New(fl.Body, func(c *ast.CallExpr) bool { return !noReturn(info, c) })
-			reach := map[*cfg.Block]bool{}
-			var walk func(b *cfg.Block)
-			walk = func(b *cfg.Block) {
-				if reach[b] {
-					return
-				}
-				reach[b] = true
-				if len(b.Succs) == 2 && len(b.Nodes) > 0 {
-					if cond, ok := b.Nodes[len(b.Nodes)-1].(ast.Expr); ok {
-						switch evalCond(cond, atom) {
-						case triTrue:
-							walk(b.Succs[0])
-							return
-						case triFalse:
-							walk(b.Succs[1])
-							return
+			for _, scenario := range []string{"assignStmt", "returnStmt"} {
+				parentKind = scenario
+				reach := map[*cfg.Block]bool{}
+				var walk func(b *cfg.Block)
+				walk = func(b *cfg.Block) {
+					if reach[b] {
+						return
+					}
+					reach[b] = true
+					if len(b.Succs) == 2 && len(b.Nodes) > 0 {
+						if cond, ok := b.Nodes[len(b.Nodes)-1].(ast.Expr); ok {
+							switch evalCond(cond, atom) {
+							case triTrue:
+								walk(b.Succs[0])
+								return
+							case triFalse:
+								walk(b.Succs[1])
+								return
+							}
 						}
 					}
-				}
-				for _, s := range b.Succs {
-					walk(s)
-				}
-			}
-			if len(g.Blocks) > 0 {
-				walk(g.Blocks[0])
-			}
-			for _, st := range sites {
-				nSites++
-				reachable := false
-				for _, b := range g.Blocks {
-					if !reach[b] {
-						continue
+					for _, s := range b.Succs {
+						walk(s)
 					}
-					for _, nd := range b.Nodes {
-						if nd.Pos() <= st.Pos() && st.End() <= nd.End() {
-							reachable = true
+				}
+				if len(g.Blocks) > 0 {
+					walk(g.Blocks[0])
+				}
+				for k, st := range sites {
+					if scenario == "returnStmt" && !recvSite[st] {
+						continue // a fresh settable value replacing a result slot is harmless: results are per call
+					}
+					if scenario == "assignStmt" {
+						nSites++
+					}
+					reachable := false
+					for _, b := range g.Blocks {
+						if !reach[b] {
+							continue
+						}
+						for _, nd := range b.Nodes {
+							if nd.Pos() <= st.Pos() && st.End() <= nd.End() {
+								reachable = true
+							}
 						}
 					}
+					if scenario == "assignStmt" {
+						key := fmt.Sprintf("%s/own-slot-replaced#%d/not-for-assignments", name, nSites)
+						r.Check(!reachable, "R04.9", key, ic.pos(st.Pos()), "not reached when the parent is an assignment: the value is set into the destination",
+							"generator "+name+" installs the value it produced by replacing its frame slot ("+types.ExprString(st.Lhs[0])+" = ...) also when it is the right-hand side of an assignment, where cfg has made that slot the destination's: pointers to the assigned variable and closures over it keep the old value (p := &x; x = T{3, 4}), and a field or element destination is never written (res[i] = <-ch)")
+					} else {
+						_ = k
+						nRet[name]++
+						key := fmt.Sprintf("%s/received-value-replaces-slot#%d/not-for-returns", name, nRet[name])
+						r.Check(!reachable, "R04.9", key, ic.pos(st.Pos()), "not reached when the parent is a return statement: the value is set into the result",
+							"generator "+name+" replaces its frame slot by the received value ("+types.ExprString(st.Lhs[0])+" = ...) also when it is the operand of a return statement, where cfg has made that slot the function's result: the result slot is then an unaddressable value and the return statement's own store panics (func f() int { return <-c } fails with reflect.Value.Set using unaddressable value)")
+					}
 				}
-				key := fmt.Sprintf("%s/own-slot-replaced#%d/not-for-assignments", name, nSites)
-				r.Check(!reachable, "R04.9", key, ic.pos(st.Pos()), "not reached when the parent is an assignment: the value is set into the destination",
-					"generator "+name+" installs the value it produced by replacing its frame slot ("+types.ExprString(st.Lhs[0])+" = ...) also when it is the right-hand side of an assignment, where cfg has made that slot the destination's: pointers to the assigned variable and closures over it keep the old value (p := &x; x = T{3, 4}), and a field or element destination is never written (res[i] = <-ch)")
 			}
 			return true
 		})
@@ -606,4 +643,9 @@ func c04R10(ic *IC, r *Report) {
 	if n < 3 {
 		r.Errorf("R04.10: only %d result-storing closures found in the append generators", n)
 	}
+}
+
+func identOf(e ast.Expr) *ast.Ident {
+	id, _ := unparen(e).(*ast.Ident)
+	return id
 }
